@@ -29,14 +29,28 @@ func init() {
 			"(MinInt / -1), and every conversion to an integer type that cannot hold all values of its source type (narrowing, sign change, float->int) - is decided: it is exact " +
 			"for every operand value allowed by the operand types and the dominating branch conditions (one-variable interval domain: width extension, `n == math.MinInt64` " +
 			"style exclusions, range tests against constants), or it is protected by a two-operand overflow guard whose failing edge returns an error. Anything else silently " +
-			"wraps for some operands. (K2) the kernel functions are called only from their evaluation entry points, which is what makes the narrow-width arms unreachable.",
-		NotCovered: "DECIMAL exactness (delegated to apd), float arithmetic and NaN, the sign rules of DIV and %, the decimal-scale bookkeeping in Div.div, the correctness of an accepted two-operand guard (only its shape is recognised), arithmetic done outside the kernel (functions, aggregates)",
-		Technique:  "SSA + one-variable interval domain over dominating branch conditions (interval engine)",
+			"wraps for some operands. (K2) the kernel functions are called only from their evaluation entry points, which is what makes the narrow-width arms unreachable. " +
+			"(K3) coercion-choice soundness: every call of convertValueToType (it keeps what typ.Convert returns even when Convert reports out-of-range: a negative value coerced to BIGINT UNSIGNED " +
+			"comes out as its two's complement, a fractional one coerced to an integer type comes out rounded) is a coercion site; its value operand is traced back to the child expression X it was " +
+			"evaluated from, its type operand is sliced back to its alternatives (phi edges, Type()/getReturnType of the same receiver, the cached field and its writers); for every alternative that " +
+			"is an integer type constant of sql/types, EVERY acyclic path selecting it must cross a positive type predicate about X's own type: IsUnsigned/IsYear for an unsigned type, an integer-like " +
+			"predicate for a signed one. `IsUnsigned(lTyp) || IsUnsigned(rTyp)` selects Uint64 on a path that knows nothing about one operand. Sites: IntDiv, Arithmetic (+ - *) decided; Div and Mod " +
+			"coerce to float only; BitOp is excluded (two's-complement wrap is the specified result of bit operations).",
+		NotCovered: "DECIMAL exactness (delegated to apd), float arithmetic and NaN, the sign rules of DIV and %, the decimal-scale bookkeeping in Div.div, the correctness of an accepted two-operand guard (only its shape is recognised), arithmetic done outside the kernel (functions, aggregates); for K3: alternatives of the computation type that are not type constants (the operand's own normalised type, DECIMAL types created by a call) are listed but not decided, whether the predicate set of a path is satisfiable, what Convert does for an integer-like operand (unsigned above MaxInt64 coerced to BIGINT), coercions that do not go through convertValueToType",
+		Technique:  "SSA + one-variable interval domain over dominating branch conditions (interval engine); K3: backward slice of the chosen type to its constant alternatives with per-path predicate sets (acyclic path enumeration over SSA blocks, interprocedural through methods of the same receiver), operand-to-child value tracing",
 		Run: func(c *Ctx) {
 			runC25(c, c25Config{Rel: "sql/expression",
 				Kernel:  []string{"plus", "minus", "mult", "UnaryMinus.Eval", "intDiv", "mod"},
 				Callers: map[string]string{"plus": "Arithmetic.Eval", "minus": "Arithmetic.Eval", "mult": "Arithmetic.Eval", "intDiv": "IntDiv.Eval", "mod": "Mod.Eval"},
 				Floor:   38})
+			runC25Coerce(c, c25CoerceCfg{rel: "sql/expression", convert: "convertValueToType", typesPkg: "sql/types",
+				uintTypes: []string{"Uint8", "Uint16", "Uint24", "Uint32", "Uint64"},
+				intTypes:  []string{"Int8", "Int16", "Int24", "Int32", "Int64"},
+				uintPreds: []string{"IsUnsigned", "IsYear"},
+				intPreds:  []string{"IsSigned", "IsInteger", "IsUnsigned", "IsYear", "IsBit", "IsTime", "IsDateType", "IsDatetimeType"},
+				floatPred: "IsFloat", evalM: "Eval", typeM: "Type",
+				skip:  map[string]string{"BitOp.convertLeftRight": "bit operations are defined on the 64-bit two's complement pattern: wrapping a negative operand into BIGINT UNSIGNED is their specified result, not a lost value (outside C25's arithmetic operators)"},
+				floor: 8})
 		},
 		Fixture: func(c *Ctx, fx *Prog) {
 			expectFixture(c, fx, "c25: unguarded add, narrowing before negation, negation of MinInt, float->int, MinInt / -1",
@@ -53,8 +67,20 @@ func init() {
 					runC25(fc, c25Config{Rel: "testdata/c25/arith", Kernel: []string{"add", "addChecked", "addPost", "mulPost", "mulHalfChecked", "neg", "negGood", "quo", "quoGood"},
 						Callers: map[string]string{"add": "Eval"}})
 				})
+			expectFixture(c, fx, "c25-K3: unsigned chosen when one operand is unsigned, signed chosen on a one-sided test behind a cached Type()",
+				[]string{
+					"C25-K3:OrDiv.convertLeftRight/Left->types.Uint64",
+					"C25-K3:OrDiv.convertLeftRight/Right->types.Uint64",
+					"C25-K3:CachedPlus.convertLeftRight/Right->types.Int64",
+				},
+				func(fc *Ctx) {
+					runC25Coerce(fc, c25CoerceCfg{rel: "testdata/c25/coerce", convert: "convertValueToType", typesPkg: "testdata/c25/tys",
+						uintTypes: []string{"Uint64"}, intTypes: []string{"Int64"},
+						uintPreds: []string{"IsUnsigned"}, intPreds: []string{"IsSigned", "IsInteger", "IsUnsigned"},
+						floatPred: "IsFloat", evalM: "Eval", typeM: "Type"})
+				})
 		},
-		FixturePkgs: []string{"./testdata/c25/arith"},
+		FixturePkgs: []string{"./testdata/c25/arith", "./testdata/c25/coerce", "./testdata/c25/tys"},
 	})
 }
 
